@@ -1,6 +1,7 @@
 /-
   Cello/LifecycleSrc.lean — the life-cycle model instantiated with what the translator (translate/g_life.py) read from
-  the current source: which halves of fix 5c00ad8 and of the repair proposed for KF-C06-dtor-alloc are present.  The driver runs `step sourceCfg`; the theorem
+  the current source: which halves of fix 5c00ad8, of fix d8f0c4f (`GC_Unmark`), fix d3e4e44 (NULL guard of `GC_Rem_Ptr`) and of the
+  repair proposed for KF-C06-dtor-alloc are present.  The driver runs `step sourceCfg`; the theorem
   `C06_current_source` (CelloProofs/Props/C06.lean) states that this is the configuration the theorems are about.
 -/
 import Cello.Lifecycle
@@ -10,17 +11,18 @@ namespace Cello.Life
 
 /-- the collector as the source has it now -/
 def sourceCfg : Cfg :=
-  ⟨CelloGen.Life.remFinalisesPending, CelloGen.Life.sweepNullsSlot, CelloGen.Life.setGuardsSweep, CelloGen.Life.teardownRepeats⟩
+  ⟨CelloGen.Life.remFinalisesPending, CelloGen.Life.sweepNullsSlot, CelloGen.Life.setGuardsSweep, CelloGen.Life.teardownRepeats,
+   CelloGen.Life.markClearsFirst, CelloGen.Life.teardownUnmarks, CelloGen.Life.remGuardsNull⟩
 
 /-- everything else the model takes from the source: routes of `alloc…`/`dealloc…`/`del_by`, `Box_Del`, stop checks,
-    teardown, threshold, the pending list being a field of the collector, `dealloc` not touching the registry -/
+    teardown, threshold, the pending list being a field of the collector, the sweep clearing the mark bits of survivors, `dealloc` not touching the registry -/
 def sourceShapeAsModelled : Bool :=
   CelloGen.Life.setIgnoredWhenStopped && CelloGen.Life.remIgnoredWhenStopped &&
   CelloGen.Life.teardownSweeps && CelloGen.Life.exitTearsDown &&
   CelloGen.Life.threadCreatesCollector && CelloGen.Life.threadTearsDown &&
   CelloGen.Life.delRoutes && CelloGen.Life.boxDelDeletes &&
   CelloGen.Life.allocRoutes && CelloGen.Life.deallocRoutes && !CelloGen.Life.deallocUnregisters &&
-  CelloGen.Life.sweepPendingInCollector &&
+  CelloGen.Life.sweepPendingInCollector && CelloGen.Life.sweepClearsMarks &&
   (CelloGen.Life.thresholdDiv == 2) && (CelloGen.Life.thresholdAdd == 1)
 
 end Cello.Life
